@@ -34,6 +34,7 @@ THEOREMS = [P + t for t in (
     "framePos_eq_spec", "framePos_global", "framePos_inverts", "frameAxis_eq_spec", "frameQuat_eq_spec",
     "frameQuat_recovers", "frameQuat_matrix", "frameVel_eq_spec", "frameLinVel_is_derivative", "objectVelocity_local_eq_spec",
     "objectVelocity_world_eq_spec", "objectAcceleration_eq_spec", "siteWrench_eq_spec", "static_body_zero_motion",
+    "computeSensor_frame_eq_spec_partial",
 )]
 
 KERNELS = ["mju_clip", "mju_min", "mju_mulMatTVec3", "mju_negQuat", "mju_mulQuat", "mju_cross", "mju_transformSpatial",
